@@ -332,11 +332,13 @@ pub struct Mirror {
     pub keep: Vec<Rc<dyn std::any::Any>>, // keeps cells alive so that addresses stay unique
     pub cyclic: bool,
     pub max_depth: usize,
+    // nodes produced so far: following solved holes can blow up (or never end) on cyclic solutions
+    pub nodes: usize,
 }
 
 impl Mirror {
     pub fn new() -> Mirror {
-        Mirror { cells: HashMap::new(), keep: vec![], cyclic: false, max_depth: 0 }
+        Mirror { cells: HashMap::new(), keep: vec![], cyclic: false, max_depth: 0, nodes: 0 }
     }
 
     pub fn cell_id<'a>(&mut self, cell: &Rc<std::cell::RefCell<Option<crate::term::Term<'a>>>>) -> usize {
@@ -355,7 +357,8 @@ impl Mirror {
 
     fn go(&mut self, t: &crate::term::Term, depth: usize) -> M {
         use crate::term::Variant as V;
-        if depth > 4000 {
+        self.nodes += 1;
+        if depth > 400 || self.nodes > 50_000 {
             self.cyclic = true;
             return M::Hole(usize::MAX, 0);
         }
@@ -367,7 +370,17 @@ impl Mirror {
                 match inner {
                     Some(sub) => {
                         let m = self.go(&sub, depth + 1);
-                        shift(&m, 0, *sh as isize).unwrap()
+                        if self.cyclic {
+                            return M::Hole(usize::MAX, 0);
+                        }
+                        // the copy made by shifting counts towards the budget (a chain of solved holes
+                        // would otherwise cost depth x size)
+                        if *sh == 0 {
+                            m
+                        } else {
+                            self.nodes += m.size();
+                            shift(&m, 0, *sh as isize).unwrap()
+                        }
                     }
                     None => {
                         let id = self.cell_id(cell);
